@@ -52,6 +52,7 @@ def _chunk(args):
         try:
             tracing.reset_budget()
             rp.world([], mods[pid])     # fresh external world (object factory O) for this run
+            rp.reset_globals(mods[pid], progs[pid - 1])
             signal.setitimer(signal.ITIMER_REAL, 2.0)      # speculative runs can square big integers for ever
             msg = ''
             try:
@@ -74,6 +75,9 @@ def _chunk(args):
             continue
         n += 1
         exp = mp.spec_outcome(rec)
+        if obs == exp and exp[0] == 'ret' and mp.globals_now(progs[pid - 1], mods[pid]) != rec.get('gl', []):
+            obs = ['ret', obs[1], 'module-level variables', mp.globals_now(progs[pid - 1], mods[pid])]
+            exp = ['ret', exp[1], 'module-level variables', rec.get('gl', [])]
         if obs != exp:
             out.append(dict(pid=pid, inp=rec['inp'], expected=exp, observed=obs, msg=msg))
     return dict(div=out, n=n, skipped=skipped, errs=errs)
